@@ -79,6 +79,15 @@ def main(argv):
             m = load(n)
             print(n, m["property"], m.get("why", ""))
         return 0
+    if argv and argv[0] == "--merge":
+        main_file = os.path.join(HERE, "tools", "sensitivity_results.json")
+        results = json.load(open(main_file))
+        for f in argv[1:]:
+            results.update(json.load(open(f)))
+        json.dump(results, open(main_file, "w"), indent=1, sort_keys=True)
+        write_report(results)
+        print("merged %d files, %d results" % (len(argv) - 1, len(results)))
+        return 0
     if argv and argv[0] == "--missing":
         # only the changes without a stored 'caught' result for this tier
         try:
@@ -92,7 +101,8 @@ def main(argv):
     elif not argv or argv[0] != "--all":
         names = argv
     bad = 0
-    resfile = os.path.join(HERE, "tools", "sensitivity_results.json")
+    # SENS_RESULTS=<file>: record into another file (several runs side by side; merge with tools/mutants.py --merge <file> ...)
+    resfile = os.environ.get("SENS_RESULTS") or os.path.join(HERE, "tools", "sensitivity_results.json")
     try:
         results = json.load(open(resfile))
     except Exception:
@@ -108,7 +118,8 @@ def main(argv):
                                                        "caught_by": info if status == "caught" else "", "why": m.get("why", ""), "repo_head": head,
                                                        "kind": "seeded (sub-agent)" if name.startswith("seeded_") else "hand-written"}
             json.dump(results, open(resfile, "w"), indent=1, sort_keys=True)
-    write_report(results)
+    if not os.environ.get("SENS_RESULTS"):
+        write_report(results)
     return 1 if bad else 0
 
 
